@@ -546,6 +546,9 @@ func init() {
 				e2run("map-2c-entry-f1-d4", e2p{Clients: 2, Type: "map", Modes: []string{"soc"}, Exchange: "pack", Faults: f, MaxFault: 1, Oracles: o}, 4, 0),
 				// the answer to a subscription is held back, the subscription is made again, and the first answer arrives late
 				e2run("counter-2c-created-entry-late-d6", e2p{Clients: 2, Type: "counter", Prefix: "created", Modes: []string{"subscribe", "soc"}, Exchange: "pack", Faults: []string{"late"}, MaxFault: 1, Alpha: "one", Oracles: o}, 6, 0),
+				// a copy of an earlier request (also of the subscription request) reaches the server later, after other requests, and its answer reaches the client
+				e2run("counter-2c-created-entry-again-d6", e2p{Clients: 2, Type: "counter", Prefix: "created", Modes: []string{"subscribe"}, Exchange: "pack", Faults: []string{"again"}, MaxFault: 1, Alpha: "one", Oracles: o}, 6, 0),
+				e2run("counter-2c-joined-again-d5", e2p{Clients: 2, Type: "counter", Prefix: "joined", Exchange: "pack", Faults: []string{"again"}, MaxFault: 1, Alpha: "one", Oracles: o}, 5, 0),
 			}
 		} else {
 			p.BudgetS = 3300
